@@ -406,6 +406,24 @@ class AliasAnalysis:
                     out.add(o)
         return out or {FRESH}
 
+    def _array_param(self, f: FunctionInfo, name: str) -> bool:
+        """is `name` a parameter of f that the body treats as an array (subscripted, array attribute read, or annotated so)"""
+        args = f.node.args.posonlyargs + f.node.args.args + f.node.args.kwonlyargs
+        a = [x for x in args if x.arg == name]
+        if not a:
+            return False
+        if a[0].annotation is not None and any(k in src(a[0].annotation) for k in ("NDArray", "ndarray", "ArrayLike")):
+            return True
+        stores = [n for n in _walk_fn(f.node) if isinstance(n, ast.Assign) and any(isinstance(t, ast.Name) and t.id == name for t in n.targets)]
+        if stores:
+            return False            # rebound locally: not (only) the caller's object any more
+        for n in _walk_fn(f.node):
+            if isinstance(n, ast.Subscript) and isinstance(n.value, ast.Name) and n.value.id == name:
+                return True
+            if isinstance(n, ast.Attribute) and isinstance(n.value, ast.Name) and n.value.id == name and n.attr in ("shape", "T", "dtype", "ndim", "size"):
+                return True
+        return False
+
     # ------------------------------------------------------------------ mutation sites
     def _mutation_sites(self, f: FunctionInfo):
         """yield (node, receiver expr, description)"""
@@ -418,6 +436,9 @@ class AliasAnalysis:
                         if isinstance(t, ast.Attribute) and isinstance(base, ast.Name) and base.id == "self":
                             continue       # plain attribute store on self: IDEMP's business
                         yield n, base, norm_stmt(n)[:120]
+                    elif isinstance(n, ast.AugAssign) and isinstance(t, ast.Name) and self._array_param(f, t.id):
+                        # `p *= c` on an array parameter works in place on the caller's array (on a number it would only rebind the name)
+                        yield n, t, norm_stmt(n)[:120]
             elif isinstance(n, ast.Call):
                 if isinstance(n.func, ast.Attribute) and n.func.attr in MUTATING_METHODS and not self.by_name.get(n.func.attr):
                     yield n, n.func.value, src(n)[:120]
@@ -471,7 +492,23 @@ class AliasAnalysis:
                             if a is not None:
                                 self.sites += 1
                                 self._judge(f, n, a, src(n)[:120], f"{g.where} modifies its parameter `{p}` in place")
+                                self._judge_query(f, n, a, g, p)
         return self
+
+    def _judge_query(self, f, node, arg, g, p):
+        """a QUERY (a function of another class / module level that returns a value other than that parameter) which also modifies
+        its parameter in place, called outside construction with the caller's own attribute: the object's input state is changed
+        behind its back and every later computation from that attribute sees the modified values"""
+        if f.name.split(".")[-1] == "__init__" or (g.cls is not None and f.cls is not None and g.cls.name == f.cls.name):
+            return
+        rets = [r for r in _walk_fn(g.node) if isinstance(r, ast.Return) and r.value is not None]
+        if not rets or all(isinstance(r.value, ast.Name) and r.value.id == p for r in rets):
+            return              # a procedure whose purpose is to modify its argument (or that hands it back)
+        for o in sorted(self.origins(arg, f)):
+            if o[0] == "state" and isinstance(arg, ast.Attribute) and isinstance(arg.value, ast.Name) and arg.value.id == "self":
+                self.findings.append(("query", f, node, src(node)[:120], f"{g.where} returns a value but also modifies its parameter `{p}` in place; "
+                                      f"here it receives self.{o[2]} of the {o[1]} object"))
+                return
 
     def _judge(self, f, node, recv, desc, via):
         for o in sorted(self.origins(recv, f)):
@@ -511,6 +548,9 @@ class U:
         x = self.g.get_grid()
         x[0] = 1
         return x
+    def ask(self):
+        self.e = np.zeros(3)
+        return count_big(self.e)
     def fine(self):
         m = self.g.calc("a").copy()
         m.data /= 2
@@ -518,6 +558,8 @@ class U:
         y[0] = 1
         return m, y
 '''
+
+CONTROL += '''\ndef count_big(e):\n    e *= 2\n    return len(e[e > 1])\n'''
 
 DEFAULT_SCOPE_PREFIXES = ("molgri.space", "molgri.molecules", "molgri.io", "molgri.naming")
 
@@ -550,7 +592,7 @@ def check_aliases(ctx, repo: Repo, pid: str, module_names: List[str], report_mod
     cf = scope_functions(cr, ("ctl",))
     ca = AliasAnalysis(cr, cf).run()
     kinds = sorted({(k, f.name) for k, f, *_ in ca.findings})
-    if kinds != [("leak", "use2"), ("memo", "use")]:
+    if kinds != [("leak", "use2"), ("memo", "use"), ("query", "ask")]:
         ctx.inconclusive("ALIAS", f"{pid}.alias.control", "positive control of the alias rule did not match", "<control>", witness=str(kinds))
         return None
     funcs = []
@@ -576,7 +618,10 @@ def check_aliases(ctx, repo: Repo, pid: str, module_names: List[str], report_mod
                         "later request for the same key returns the modified object (the result of a getter depends on which getters ran before)",
                 "leak": "object state handed out by reference by a getter is modified in place by the caller: later calls of the getters "
                         "of that object return different values",
-                "default": "a mutable default argument is modified in place: state shared between calls"}[kind]
+                "default": "a mutable default argument is modified in place: state shared between calls",
+                "query": "a value-returning helper modifies, in place, the array it is given, and a method hands it the object's own input "
+                         "attribute: after that call every result computed from the attribute uses the modified values (results depend on "
+                         "the history of calls)"}[kind]
         ctx.violate("ALIAS", f"{pid}.alias.{kind}", what, f.where, desc, witness=msg)
     if bad == 0:
         ctx.ok("ALIAS", f"{pid}.alias", f"{aa.sites} in-place mutation sites in {len(funcs)} functions: none acts on an object that may come from "
